@@ -370,6 +370,47 @@ def main(ctx):
                 bounds=dict(tables=len(tables), one_field_tables=n1, rows=[1, 3], delims=[repr(x) for x in delims],
                             value_offsets=voffs, writers=WRITERS, readers=READERS_H + READERS_P))
 
+    # ------------------------------------------- the same number in fields of different types
+    # a value that is exactly representable in float32 stored in an f4 field AND in an f8 field of the same row (a column
+    # and its promoted copy), in both orders, with integer and string fields in between and across the row boundary: each
+    # field is written with the digits of ITS type (0.1f as f8 is 0.10000000149011612, 16 digits)
+    def one_same(case, rec):
+        order, delim, writer = case
+        vals = np.array([0.1, 1.0 / 3.0, 2.0 ** -11 + 2.0 ** -30, 16777217.0, 1e-3, 5e10, -0.7], dtype="f4")
+        descr = {"f4-f8": [("x", "<f4"), ("y", "<f8")], "f8-f4": [("y", "<f8"), ("x", "<f4")], "f4-int-f8": [("x", "<f4"), ("k", "<i4"), ("y", "<f8")],
+                 "f4-str-f8": [("x", ">f4"), ("s", "S3"), ("y", ">f8")], "rows": [("y", "<f8"), ("k", "<i2"), ("x", "<f4")],
+                 "sub": [("x", "<f4", (2,)), ("y", "<f8", (2,))]}[order]
+        n = vals.size
+        d = np.zeros(n, dtype=descr)
+        if order == "sub":
+            d["x"] = np.stack([vals, vals[::-1]], axis=1)
+            d["y"] = d["x"].astype("f8")
+        else:
+            d["x"] = vals
+            d["y"] = vals.astype("f8") if order != "rows" else np.roll(vals, -1).astype("f8")      # rows: y of row i = x of row i+1
+        if "k" in d.dtype.names:
+            d["k"] = np.arange(n)
+        if "s" in d.dtype.names:
+            d["s"] = b"ab"
+        fn = os.path.join(rec.tmp, "c04_same.rec")
+        if os.path.exists(fn):
+            os.unlink(fn)
+        try:
+            do_write(writer, fn, d, delim)
+            if writer in ("Recfile.write", "recfile.write"):
+                out, hdr = do_read("recfile.read", fn, d, delim, 0)
+            else:
+                out, hdr = do_read("sfile.read", fn, d, delim, 0)
+        except Exception as e:
+            return rec.fail(case, "raised %s: %s" % (type(e).__name__, str(e)[:160]))
+        m = check_result(d, out, hdr, delim)
+        if m:
+            return rec.fail(case, "the same numbers in an f4 and an f8 field (%s): %s" % (order, m))
+        rec.ok(case, outcome="same-number:%s" % order, nontrivial=True, calls=2)
+
+    smunits = [(o, dl, w) for o in ("f4-f8", "f8-f4", "f4-int-f8", "f4-str-f8", "rows", "sub") for dl in DELIMS for w in WRITERS]
+    ctx.lattice("same-number-in-f4-and-f8-fields", smunits, one_same, bounds=dict(orders=["f4-f8", "f8-f4", "f4-int-f8", "f4-str-f8", "rows", "sub"]))
+
     # ------------------------------------------- text files with hostile user headers and field names
     # the header of a text file is text too: multi-byte characters (the data start is a BYTE offset, not a character
     # count), quotes, newlines, END lines and printf conversions in keys, values and field names, in front of a table
